@@ -61,6 +61,10 @@ type Env struct {
 	asserted      map[string]bool
 	opaque        map[string]bool
 	next0         string
+	leafTypes     map[string]types.Type
+	frameAllowed  map[string][]string
+	frameAllowAll map[string]bool
+	frameOn       bool
 	pending       sync.WaitGroup
 	writeLog      map[string][]string
 	allocLog      map[string]bool
@@ -73,7 +77,7 @@ func newEnv(w *World, top string, timeoutMs int) (*Env, error) {
 	}
 	e := &Env{w: w, sess: s, top: top, declared: map[string]bool{}, heapSorts: map[string]string{},
 		strIDs: map[string]int{}, funcIDs: map[*ssa.Function]int{}, trusted: map[string]bool{}, inlined: map[string]bool{},
-		kindCount: map[string]int{}, timeoutMs: timeoutMs, recDefs: map[string]*recDef{}}
+		kindCount: map[string]int{}, timeoutMs: timeoutMs, recDefs: map[string]*recDef{}, leafTypes: map[string]types.Type{}}
 	return e, nil
 }
 
@@ -173,11 +177,15 @@ func (e *Env) discharge(ob *Obligation) {
 		script += "(get-value (" + strings.Join(e.modelTerms, " ") + "))\n"
 	}
 	solverSlots <- struct{}{}
-	res := runSolver(context.Background(), solvers[0], script, e.timeoutMs)
+	first := e.timeoutMs
+	if first > 2500 {
+		first = 2500
+	}
+	res := runSolver(context.Background(), solvers[0], script, first)
 	<-solverSlots
 	if res.Verdict == Unknown {
 		solverSlots <- struct{}{}
-		r2 := raceSolvers(script, e.timeoutMs*2, []int{1, 2})
+		r2 := raceSolvers(script, e.timeoutMs, []int{0, 1, 2})
 		<-solverSlots
 		r2.Time += res.Time
 		if r2.Verdict == Unknown {
